@@ -8,6 +8,7 @@ import (
 	"sort"
 	"strings"
 	"testing"
+	"time"
 )
 
 func loadCfg(t *testing.T) Cfg {
@@ -70,6 +71,8 @@ func TestReplay(t *testing.T) {
 		}
 	}
 	rep := &Report{Engine: "clnt-replay", Stats: map[string]any{}}
+	StartWatchdog(40 * time.Second)
+	aborted := 0
 	drift, steps, hung, pending := 0, 0, 0, 0
 	for _, b := range bs {
 		executed := 0
@@ -85,6 +88,12 @@ func TestReplay(t *testing.T) {
 		rep.Cases++
 		if k == nil || k.C == nil {
 			rep.Inconclusive = append(rep.Inconclusive, "case did not run: "+k.Leftover)
+			continue
+		}
+		if k.Aborted != "" {
+			if aborted++; aborted <= 2 {
+				rep.Inconclusive = append(rep.Inconclusive, fmt.Sprintf("case %d abandoned, the harness faulted: %.200s", b.ID, k.Aborted))
+			}
 			continue
 		}
 		steps += len(k.Trace)
@@ -117,6 +126,7 @@ func TestReplay(t *testing.T) {
 	rep.Distinct = len(bs)
 	rep.Stats["steps"] = steps
 	rep.Stats["drift_cases"] = drift
+	rep.Stats["aborted_cases"] = aborted
 	rep.Stats["hung_cases"] = hung
 	rep.Stats["pending_cases"] = pending
 	if err := rep.Write(); err != nil {
@@ -138,6 +148,8 @@ func TestRandom(t *testing.T) {
 		}
 	}
 	rep := &Report{Engine: "clnt-random", Stats: map[string]any{}}
+	StartWatchdog(40 * time.Second)
+	aborted := 0
 	steps, hung, failedRuns := 0, 0, 0
 	shapes := map[string]bool{}
 	rng := rand.New(rand.NewSource(seed))
@@ -147,6 +159,12 @@ func TestRandom(t *testing.T) {
 		rep.Cases++
 		if k == nil || k.C == nil {
 			rep.Inconclusive = append(rep.Inconclusive, "case did not run: "+k.Leftover)
+			continue
+		}
+		if k.Aborted != "" {
+			if aborted++; aborted <= 2 {
+				rep.Inconclusive = append(rep.Inconclusive, fmt.Sprintf("case %d abandoned, the harness faulted: %.200s", i, k.Aborted))
+			}
 			continue
 		}
 		steps += len(k.Trace)
